@@ -44,6 +44,9 @@ def VLOOKUP(
 
     col_index_num = int(col_index_num)
 
+    if col_index_num < 1:
+        raise xlerrors.ValueExcelError('col_index_num is less than 1')
+
     if col_index_num > len(table_array.values[0]):
         raise xlerrors.ValueExcelError(
             'col_index_num is greater than the number of cols in table_array')
@@ -54,7 +57,7 @@ def VLOOKUP(
         raise xlerrors.NaExcelError(
             '`lookup_value` not in first column of `table_array`.')
 
-    return table_array.loc[lookup_value].values[0]
+    return table_array.loc[lookup_value].values[col_index_num - 2]
 
 
 @xl.register()
